@@ -1,5 +1,6 @@
 use crate::driver::Check;
 
+pub mod c03;
 pub mod c04;
 pub mod c05;
 pub mod c11;
@@ -7,7 +8,7 @@ pub mod c12;
 pub mod prog;
 
 pub fn registry() -> Vec<&'static dyn Check> {
-    vec![&prog::C01, &prog::C02, &c04::C04, &c05::C05, &prog::C07, &prog::C08, &prog::C09, &c11::C11, &c12::C12]
+    vec![&prog::C01, &prog::C02, &c03::C03, &c04::C04, &c05::C05, &prog::C07, &prog::C08, &prog::C09, &c11::C11, &c12::C12]
 }
 
 pub fn find(id: &str) -> Option<&'static dyn Check> {
